@@ -116,6 +116,7 @@ class KRun:
         self.task_by_name: dict[str, tuple[int, Any]] = {}  # name -> (T, TaskHandle)
         self.handles: dict[int, Any] = {}  # T -> TaskHandle
         self.events: list[Any] = []
+        self.final_exc: dict[int, tuple[BaseException, str]] = {}  # T -> (final exception, its code)
         self.ev_waiters: list[list[int]] = []
         self.nF = 0
         self.natives: dict[int, int] = {}
@@ -568,8 +569,20 @@ class KRun:
                 self.nL -= 1
                 self.hist("start-refused", G, T, me)
             else:
-                self.close(me, "done " + owncode(e))
-                self.hist("start-end", G, T, me, owncode(e))
+                code = owncode(e)
+                fin = self.final_exc.get(T)
+                if fin is not None and isinstance(e, asyncio.CancelledError):
+                    # the group's done-callback hands a child's cancellation to the start() caller as the
+                    # innermost CancelledError of its __context__ chain; the model (no exception chains)
+                    # passes the child's outcome on: same exception, so same code as at `finish`
+                    x: BaseException | None = fin[0]
+                    while x is not None:
+                        if x is e:
+                            code = fin[1]
+                            break
+                        x = x.__context__ if isinstance(x.__context__, asyncio.CancelledError) else None
+                self.close(me, "done " + code)
+                self.hist("start-end", G, T, me, code)
             self.q_cancelling(me)
             raise
         self.close(me, "done -")
@@ -609,13 +622,7 @@ class KRun:
             await self.body(T, self.p["tasks"][name])
         except BaseException as e:
             code = evcode(e)
-            if isinstance(e, asyncio.CancelledError):
-                # what the group's done-callback passes on (to a pending start() future) is the innermost
-                # CancelledError of the __context__ chain, as the code unwraps it
-                inner: BaseException = e
-                while isinstance(inner.__context__, asyncio.CancelledError):
-                    inner = inner.__context__
-                code = own1(inner)
+            self.final_exc[T] = (e, code)
             self.emit(f"{T} finish {code}", "ok")
             self.hist("finish", T, code)
             raise
